@@ -8,6 +8,7 @@
      ok     harness-side integrity of the returned object (same header/payload as pushed; nil on error)
      head   PlayoutHead() after the call        len   Length() after the call
      reach  number of list nodes reachable from the queue head after the call (-1: cyclic list)
+     prevok prev pointers consistent after the call (head.prev = nil, n.next.prev = n; JitterList.PrevConsistent)
      ev     listener events fired during the call, in order       cnt/size  icpt: bytes returned / packet size
    Actions:  reset{level,min}
      pq   : qpush qpop qpopat qpopts qfind qclear             (PriorityQueue)
@@ -80,6 +81,7 @@ Accept(e) ==
   /\ (IsPush(e) => e.id = nid + 1)
   /\ Res(e) \in Outs(e)
   /\ e.ok
+  /\ e.prevok
   /\ LoggedAfter(e) = After(e, Res(e))
 
 NewDevs(e) ==
@@ -101,7 +103,7 @@ Next ==
                        /\ taint' = (CHOOSE t \in k : TRUE) /\ l' = l + 1 /\ UNCHANGED <<c, lvl, x, nid, devs>>
         ELSE PrintT(<<"MISMATCH", l, "expected one of", Outs(e), "then",
                       After(e, IF Res(e) \in Outs(e) THEN Res(e) ELSE CHOOSE r \in Outs(e) : TRUE),
-                      "logged", Res(e), "ok", e.ok, LoggedAfter(e), "devs", devs \cup NewDevs(e)>>) /\ FALSE
+                      "logged", Res(e), "ok", e.ok, "prevok", e.prevok, LoggedAfter(e), "devs", devs \cup NewDevs(e)>>) /\ FALSE
 
 HW == TLCSet(1, IF TLCGet(1) < l THEN l ELSE TLCGet(1))
 ASSUME TLCSet(1, 0)
